@@ -738,7 +738,8 @@ class Channel:
     @property
     def _connected(self) -> bool:
         return (self._protocol is not None
-                and not self._protocol.handler.connection_lost)
+                and not self._protocol.handler.connection_lost
+                and not self._protocol.connection.is_closing())
 
     async def __connect__(self) -> H2Protocol:
         if not self._connected:
